@@ -27,7 +27,9 @@ using pbt::Ctx; using pbt::Bytes;
 static std::string fstr(const std::vector<int> &v) { std::string s; for (int x : v) s += x == 1 ? "+" : x == -1 ? "-" : "0"; return s; }
 static std::vector<int> flags_of(zckCtx *z) { std::vector<int> v; for (zckChunk *ch = z->index.first; ch; ch = ch->next) v.push_back(ch->valid); return v; }
 
-struct Src { Bytes file; ref::Header h; std::string desc; bool damaged = false; };
+struct Src { Bytes file; ref::Header h; std::string desc; bool damaged = false; Bytes intact; int pre_op = 0; };
+// pre_op: history on the SOURCE context before the copy: 1 = zck_find_matching_chunks(intact B, source) has marked its chunks from the
+// index alone; 2 = the source was opened and validated while intact and damaged on disk afterwards
 
 static Src make_source(Ctx &c, const gen::ZParams &qb, const gen::ZFile &B) {
     gen::ZParams q = qb; q.by_ref = false; Src s; std::ostringstream d;
@@ -57,6 +59,8 @@ static Src make_source(Ctx &c, const gen::ZParams &qb, const gen::ZFile &B) {
         Bytes hd = ref::emit_header(h2); Bytes f = hd; f.insert(f.end(), A.file.begin() + A.h.total_size, A.file.end()); s.file = f; ref::ParseResult pr = ref::parse(f); if (pr.ok) s.h = pr.h; s.damaged = true; break; }
     default: { size_t i = c.pick(n); if (A.clen(i)) { std::fill(s.file.begin() + A.off(i), s.file.begin() + A.off(i) + A.clen(i), 0); d << " zeroed-c" << i; s.damaged = true; } break; }
     }
+    s.intact = A.file;
+    if (c.gver >= 2 && s.damaged && c.rarely(3)) { s.pre_op = 1 + (int)c.draw(1); if (s.pre_op == 2 && (s.file.size() < A.h.total_size || memcmp(s.file.data(), A.file.data(), A.h.total_size) != 0)) s.pre_op = 1; d << (s.pre_op == 1 ? " [source chunks pre-marked by find_matching_chunks]" : " [source validated while intact, damaged afterwards]"); }
     s.desc = d.str(); return s;
 }
 
@@ -74,8 +78,10 @@ static void mode_copy(Ctx &c) {
     (void)!zck_find_valid_chunks(tgt); zck_reset_failed_chunks(tgt);
     bool accepted_from_damaged = false, rejected_from_damaged = false; std::string fsig, fmsg;
     for (size_t si = 0; si < ns && fsig.empty(); si++) {
-        Src &S = srcs[si]; int sfd = lib::mkfd(S.file, "src"); zckCtx *src = zck_create();
+        Src &S = srcs[si]; int sfd = lib::mkfd(S.pre_op == 2 ? S.intact : S.file, "src"); zckCtx *src = zck_create();
         if (!zck_init_read(src, sfd)) { zck_free(&src); close(sfd); c.label("source-refused"); continue; }
+        if (S.pre_op == 1) { int xfd = lib::mkfd(B.file, "x"); zckCtx *x = zck_create(); if (zck_init_read(x, xfd)) (void)zck_find_matching_chunks(x, src); zck_free(&x); close(xfd); (void)!zck_clear_error(src); c.label("source-premarked"); }
+        if (S.pre_op == 2) { (void)!zck_validate_checksums(src); if (pwrite(sfd, S.file.data(), S.file.size(), 0) != (ssize_t)S.file.size() || ftruncate(sfd, S.file.size())) abort(); (void)!zck_clear_error(src); c.label("source-damaged-after-validation"); }
         std::vector<int> before = flags_of(tgt); Bytes tb = lib::fd_bytes(tfd);
         bool ok = zck_copy_chunks(src, tgt);
         std::vector<int> after = flags_of(tgt); Bytes ta = lib::fd_bytes(tfd); Bytes sa = lib::fd_bytes(sfd);
